@@ -295,6 +295,14 @@ pub fn registry() -> Vec<TypeEntry> {
         TypeEntry::ts::<i32>("prim:i32", "i32"),
         TypeEntry::ts::<Vec<UA>>("prim:Vec<UA>", "Vec<UA>"),
         TypeEntry::ts::<Option<UD>>("prim:Option<UD>", "Option<UD>"),
+        TypeEntry::ts::<std::collections::HashMap<String, UA>>("prim:HashMap<String, UA>", "std::collections::HashMap<String, UA>"),
+        TypeEntry::ts::<std::collections::BTreeMap<String, UD>>("prim:BTreeMap<String, UD>", "std::collections::BTreeMap<String, UD>"),
+        TypeEntry::ts::<(UA, UD)>("prim:(UA, UD)", "(UA, UD)"),
+        TypeEntry::ts::<[UA; 2]>("prim:[UA; 2]", "[UA; 2]"),
+        TypeEntry::ts::<std::ops::Range<i32>>("prim:Range<i32>", "std::ops::Range<i32>"),
+        TypeEntry::ts::<Result<UA, String>>("prim:Result<UA, String>", "Result<UA, String>"),
+        TypeEntry::ts::<()>("prim:()", "()"),
+        TypeEntry::ts::<String>("prim:String", "String"),
     ]
 }
 
